@@ -364,7 +364,7 @@ def analyse(sc, real, ses, exps):
             continue
         obs_v[t] = ln["v"]
         judged.append(t)
-        if ln["file"] != real["file_of"][t + 1] and ln["file"] != real["file_of"].get(str(t + 1)):
+        if ln["file"] != real["file_of"][t + 1]:
             fails.append(("wrong-file-in-verdict-line", f"{ln['name']} lives in {real['file_of'][t + 1]}", ln))
     if ses["stray"]:
         fails.append(("non-test-function-ran: " + ",".join(ses["stray"]), "a helper / a function of a non-test file was executed", None))
@@ -431,8 +431,6 @@ def analyse(sc, real, ses, exps):
                           "selected tests were left without verdict", None))
         if o["stopOnFail"] and "FAILED" in vs[:-1]:
             fails.append(("continued-after-FAILED-under-x", "-x must stop after the first failure", None))
-        if not o["stopOnFail"] and len(judged) < len(sel) and vs:
-            pass                                            # already reported above
         if ses["summary"] is None:
             fails.append(("no-summary-line", "the session printed no summary", None))
         else:
